@@ -184,20 +184,32 @@ end
 
 /-! ### PCR statements -/
 
-theorem fixStep3_pcr {ss : List Stmt} {i : Nat} {s2 s' : Stmt} (hn : s2.pkg.needsRes = true)
+/-- (batch B2) the step also says the range check of the 8-bit form passed -/
+theorem fixStep3_pcr_in {ss : List Stmt} {i : Nat} {s2 s' : Stmt} (hn : s2.pkg.needsRes = true)
     (h : fixStep3 ss i s2 = .ok s') :
     ∃ r start v, fixRel ss s2 = .ok r ∧ addrIntOf ss i = some start ∧
-      numericOfInt (pcrJump s2 r start) (some s2.pcrHint) .none = .ok v ∧ s' = withAdditional s2 v := by
+      numericOfInt (pcrJump s2 r start) (some s2.pcrHint) .none = .ok v ∧ s' = withAdditional s2 v ∧
+      ¬ pcrOut s2 r start := by
   unfold fixStep3 at h
   rw [if_pos hn] at h
   split at h
   · rename_i r start hr hst
     split at h
-    · rename_i v hv; cases h; exact ⟨r, start, v, hr, hst, hv, rfl⟩
     · cases h
+    · rename_i hout
+      split at h
+      · rename_i v hv; cases h; exact ⟨r, start, v, hr, hst, hv, rfl, hout⟩
+      · cases h
   · cases h
   · cases h
   · cases h
+
+theorem fixStep3_pcr {ss : List Stmt} {i : Nat} {s2 s' : Stmt} (hn : s2.pkg.needsRes = true)
+    (h : fixStep3 ss i s2 = .ok s') :
+    ∃ r start v, fixRel ss s2 = .ok r ∧ addrIntOf ss i = some start ∧
+      numericOfInt (pcrJump s2 r start) (some s2.pcrHint) .none = .ok v ∧ s' = withAdditional s2 v := by
+  obtain ⟨r, start, v, h1, h2, h3, h4, _⟩ := fixStep3_pcr_in hn h
+  exact ⟨r, start, v, h1, h2, h3, h4⟩
 
 /-- the target of a PCR operand whose offset is a plain label: the address of the statement it names -/
 theorem fixRel_plain {ss : List Stmt} {s2 : Stmt} {t : Nat}
@@ -228,6 +240,22 @@ theorem fixOne_pcr {ss : List Stmt} {i : Nat} {s s' : Stmt} (hk : (s.operand.kin
   simp only [Outcome.bind] at h
   rw [h2] at h
   exact fixStep3_pcr hn h
+
+/-- (batch B2, with the range check) `fix_addresses` on a PCR statement: the stored offset is `target − own address − own size`
+(reduced mod 65536 when the 16-bit form was chosen) -/
+theorem fixOne_pcr_in {ss : List Stmt} {i : Nat} {s s' : Stmt} (hk : (s.operand.kind == .relative) = false)
+    (hv1 : s.operand.value.isAddrExpr = false) (hv2 : s.operand.value.isAddress = false)
+    (hv3 : s.operand.value ≠ .pyNone) (hn : s.pkg.needsRes = true) (h : fixOne ss i s = .ok s') :
+    ∃ r start v, fixRel ss s = .ok r ∧ addrIntOf ss i = some start ∧
+      numericOfInt (pcrJump s r start) (some s.pcrHint) .none = .ok v ∧ s' = withAdditional s v ∧
+      ¬ pcrOut s r start := by
+  rw [fixOne_nonrel ss i s hk hv3] at h
+  have h1 : fixStep1 ss s = .ok s := by unfold fixStep1; simp [hv1]
+  have h2 : fixStep2 ss s.operand.value s = .ok s := by unfold fixStep2; simp [hv2]
+  rw [h1] at h
+  simp only [Outcome.bind] at h
+  rw [h2] at h
+  exact fixStep3_pcr_in hn h
 
 /-! ### sums of sizes and addresses -/
 
